@@ -8,6 +8,7 @@ import (
 	"go/parser"
 	"go/token"
 	"go/types"
+	"sort"
 	"strconv"
 	"strings"
 )
@@ -16,7 +17,7 @@ func init() { register("C15", "other", checkC15) }
 
 func checkC15(w *World, r *Result) {
 	r.Explanation = "Decides structural necessary conditions on generator/go/randdata: TPL-C15f in every instantiation of the container templates each element is produced by the element generator: fixed arrays are filled by a loop over the whole array, slices by a loop over the whole freshly made slice, maps by l insertions of generated key and value; pointers return the address of a generated value (never nil); AGR-C15u the union template lists one generated value per member (lock-step append) and draws the index below len(Members); AGR-C15e the table-based enum template draws an index below len(choix) and returns choix[i], the choices being exactly the exported constants (AGR-C10b, TPL-3: no empty slot); AGR-C15s the struct loop skips exactly unexported fields and fields tagged gomacro-data:\"ignore\" before emitting anything for them, and assigns every other field from the generator named functionID(field type) (AGR-C01a); TPL-C15a termination: some cycle-capable constructor (slice, map, pointer, union) must be able to stop the recursion (zero length, or a conditional call) - today none can (known finding); TPL-1 templates parse. Does not decide: variation across calls, well-formedness of values as a run-time fact, the JSON round trip."
-	r.Rules = []string{"TPL-C15f", "AGR-C15u", "AGR-C15e", "AGR-C15s", "AGR-C10b", "AGR-C01a", "TPL-C15a", "TPL-1", "TPL-3", "AGR-C09c", "AGR-C11f", "GEN-ID", "AGR-C15d", "AGR-C10r", "AGR-C10p", "ALIAS-APPEND", "PRINTF", "CACHE-DROP", "MUT-AN", "AGR-C11c"}
+	r.Rules = []string{"TPL-C15f", "TPL-C15l", "AGR-C15u", "AGR-C15e", "AGR-C15s", "AGR-C10b", "AGR-C01a", "TPL-C15a", "TPL-1", "TPL-3", "AGR-C09c", "AGR-C11f", "GEN-ID", "AGR-C15d", "AGR-C10r", "AGR-C10p", "ALIAS-APPEND", "PRINTF", "CACHE-DROP", "MUT-AN", "AGR-C11c"}
 	// the union table consumed by the templates: candidates are the defined named types of the scope, each once (rule shared with C11)
 	checkCandidates(w, r)
 	mutAnRule(w, r, func(rel string) bool { return rel == "generator/go/randdata" })
@@ -64,6 +65,47 @@ func checkC15(w *World, r *Result) {
 			Undecided("no parsable instantiation of the template of %s", label)
 		}
 		return out
+	}
+	// TPL-C15l: every loop of the generated code is bounded: a range, or a counted loop whose counter is stepped by the
+	// post statement and compared with a bound the body does not assign. A loop that waits for a condition on what it
+	// has produced (`for len(out) < l`) does not end when the generators cannot produce enough distinct values (a map
+	// keyed by bool, or by an enum with fewer than l constants).
+	var labels []string
+	for label := range byFn {
+		labels = append(labels, label)
+	}
+	sort.Strings(labels)
+	for _, label := range labels {
+		lfi := w.Func(label)
+		where := "generator/go/randdata"
+		if lfi != nil {
+			where = fnPos(w, lfi)
+		}
+		nLoops, unbounded := 0, ""
+		for _, d := range byFn[label] {
+			for _, in := range instances(d.content, 2) {
+				f, err := parser.ParseFile(token.NewFileSet(), "gen.go", goSource(in.text), parser.SkipObjectResolution)
+				if err != nil {
+					continue
+				}
+				ast.Inspect(f, func(n ast.Node) bool {
+					fs, ok := n.(*ast.ForStmt)
+					if !ok {
+						return true
+					}
+					nLoops++
+					if why := boundedLoop(fs); why != "" && unbounded == "" {
+						unbounded = why
+					}
+					return true
+				})
+			}
+		}
+		if nLoops == 0 {
+			continue
+		}
+		r.cond(unbounded == "", "TPL-C15l", label, "generated loops are bounded", where, "every `for` of the generated code is a counted loop (counter stepped by the post statement, bound not assigned in the body) or a range",
+			"the generated function contains "+unbounded+": it does not return when the condition can never be met (e.g. a map filled until it has l entries, with a key type that has fewer than l values — bool, a small enum)")
 	}
 	minLens := map[string]int{}
 	// --- arrays / slices
@@ -221,6 +263,66 @@ func minLength(fd *ast.FuncDecl) (int, bool) {
 		return true
 	})
 	return res, found
+}
+
+// boundedLoop returns "" when the generated `for` statement is a counted loop, else a description of it.
+func boundedLoop(fs *ast.ForStmt) string {
+	desc := "the loop `for " + types.ExprString(fs.Cond) + "`"
+	if fs.Cond == nil {
+		// `for { ... }`: bounded only if it has no body-independent exit; not used by the templates
+		return "an endless `for { }` loop"
+	}
+	cond, ok := fs.Cond.(*ast.BinaryExpr)
+	if !ok || fs.Post == nil {
+		return desc + " without a counter stepped by a post statement"
+	}
+	var counter string
+	switch p := fs.Post.(type) {
+	case *ast.IncDecStmt:
+		counter = types.ExprString(p.X)
+	case *ast.AssignStmt:
+		if len(p.Lhs) == 1 && (p.Tok == token.ADD_ASSIGN || p.Tok == token.SUB_ASSIGN) {
+			counter = types.ExprString(p.Lhs[0])
+		}
+	}
+	if counter == "" {
+		return desc + " whose post statement does not step a counter"
+	}
+	bound := cond.Y
+	if types.ExprString(cond.X) != counter {
+		if types.ExprString(cond.Y) != counter {
+			return desc + " whose condition does not test the counter " + counter
+		}
+		bound = cond.X
+	}
+	// neither the counter nor the bound is assigned in the body
+	bad := ""
+	boundStr := types.ExprString(bound)
+	if call, ok := bound.(*ast.CallExpr); ok && types.ExprString(call.Fun) == "len" && len(call.Args) == 1 {
+		boundStr = types.ExprString(call.Args[0])
+	}
+	ast.Inspect(fs.Body, func(n ast.Node) bool {
+		switch v := n.(type) {
+		case *ast.AssignStmt:
+			for _, l := range v.Lhs {
+				if s := types.ExprString(l); s == counter || s == boundStr {
+					bad = desc + " whose body assigns " + s
+				}
+			}
+		case *ast.IncDecStmt:
+			if s := types.ExprString(v.X); s == counter || s == boundStr {
+				bad = desc + " whose body steps " + s
+			}
+		}
+		return true
+	})
+	if bad != "" {
+		return bad
+	}
+	if call, ok := bound.(*ast.CallExpr); ok && types.ExprString(call.Fun) != "len" {
+		return desc + " whose bound is recomputed by a call at every iteration"
+	}
+	return ""
 }
 
 func mapInsertsGenerated(fd *ast.FuncDecl) bool {
